@@ -319,6 +319,12 @@ def corpus():
     # a CNAME whose target is a name error: Authoritative [cname], not a name error
     cs.append(encode([auth([I("alias.example.com.", CNAME, cn("missing.example.com."))])], [],
                      [("alias.example.com.", A), ("missing.example.com.", A), ("alias.example.com.", CNAME), ("alias.example.com.", ANY)]))
+    # aliases held by the cache that run into local data: a delegation, a name error, an authoritative answer
+    cs.append(encode([auth([I("sub.example.com.", NS, cn("ns1.sub.example.com.")), I("www.example.com.", A, a(1))])],
+                     [("x.cached.org.", CNAME, 300, cn("www.sub.example.com.")), ("y.cached.org.", CNAME, 300, cn("missing.example.com.")),
+                      ("z.cached.org.", CNAME, 300, cn("www.example.com.")), ("w.cached.org.", CNAME, 300, cn("x.cached.org."))],
+                     [("x.cached.org.", A), ("y.cached.org.", A), ("z.cached.org.", A), ("w.cached.org.", A), ("w.cached.org.", ANY),
+                      ("z.cached.org.", CNAME), ("z.cached.org.", AXFR)]))
     # the override the pinned test meant to show: non-authoritative zone vs a populated cache
     cs.append(encode([nonauth([I("www.example.com.", A, a(1)), I("www.example.com.", A, a(2))])],
                      [("www.example.com.", A, 60, a(3)), ("www.example.com.", AAAA, 60, tok.rd_aaaa([0] * 15 + [1])),
@@ -505,9 +511,20 @@ def random_case(rng, messy):
     return encode(zones, cache, qs, "messy" if messy else "random")
 
 
-def generate(rng, tier):
+def corpus_file(pid):
+    """regression witnesses kept as case lines in /verif/corpus/<id>/regressions.txt (run first)"""
+    import os
+    p = os.path.join(os.path.dirname(os.path.dirname(os.path.abspath(__file__))), "corpus", pid, "regressions.txt")
+    if not os.path.exists(p):
+        return []
+    with open(p) as f:
+        return [l.rstrip("\n") for l in f if l.startswith("local ")]
+
+
+def generate(rng, tier, pid=None):
     n = 5000 if tier == "quick" else 100000
-    cases = [c if len(c.split(" ")) == 6 else c + " corpus" for c in corpus()]
+    cases = corpus_file(pid) if pid else []
+    cases += [c if len(c.split(" ")) == 6 else c + " corpus" for c in corpus()]
     while len(cases) < n:
         r = rng.random()
         if r < 0.50:
